@@ -254,7 +254,19 @@ def run(tier, replay=None):
     if replay:
         cases = [replay["case"]]
         meta = {cases[0].split(" ")[0]: "replay"}
-    out, rc, err = core.run_parallel([b["h_compile"], "20" if tier == "quick" else "60"], cases, timeout=3000)
+    tmo = "10" if tier == "quick" else "60"
+    # stage 1: a sentinel sample (corpus + every 15th case); when it already shows hangs/crashes, the full campaign (thousands of cases
+    # that may each run into the per-case timeout) is skipped and the sentinel's failures are reported
+    sentinel = cases[:len(K.RULES)] + cases[len(K.RULES)::15]
+    out, rc, err = core.run_parallel([b["h_compile"], tmo], sentinel, timeout=3000)
+    bad1 = sum(1 for l in out if " ok " not in l[:14])
+    staged = "sentinel-only" if (bad1 > 25 and not replay) else "full"
+    if staged == "full" and not replay:
+        rest = [c for c in cases if c not in set(sentinel)]
+        out2, rc2, err2 = core.run_parallel([b["h_compile"], tmo], rest, timeout=3000)
+        out, rc, err = out + out2, rc or rc2, err or err2
+    elif not replay:
+        cases = sentinel
     found = False
     if rc != 0 or len(out) != len(cases):
         chk.violation("harness_crash.json", {"kind": "harness-crash", "engine": "compile", "harness": "h_compile", "rc": rc, "stderr": err, "answered": len(out)})
@@ -344,7 +356,7 @@ def run(tier, replay=None):
         "rule": "grammar-aware mutations of 62 valid rules; non-trivial = the real compiler rejected the text with >= 1 diagnosed error (so an error path, a bison "
                 "destructor/recovery path or a sub-parser error path ran)",
         "samples": [cases[len(K.RULES) + 7][:300], cases[-1][:300]] if len(cases) > len(K.RULES) + 7 else cases[:1],
-        "by_mutation": dict(hist), "first_error_kinds": dict(kinds.most_common(60)), "outcomes": dict(outcomes),
+        "by_mutation": dict(hist), "campaign": staged, "first_error_kinds": dict(kinds.most_common(60)), "outcomes": dict(outcomes),
         "grammar_tables": {k: {kk: vv for kk, vv in v.items() if kk != "union"} for k, v in status.items()},
         "traces_validated_against_impl": sum(1 for l in out if " ok " in l[:12]),
     })
